@@ -354,7 +354,8 @@ def main(ctx):
 
     object_world(ctx, "several-binners", ["d1/C", "d2/C", "d1/py", "d3/py"], b_new, WOPS, b_do, lambda: [su],
                  depth=ctx.pick(4, 5), check=b_check,
-                 state=lambda b: (dict(b.__dict__), dict(b)))
+                 state=lambda b: (dict(b.__dict__), dict(b)),
+                 must_raise=lambda kind, op: reference(np.array(HDATA[kind.split("/")[0]]), *op) is None)
 
     # ------------------------------------------------------------ call sequences
     # several histogram(rev=True) results alive at once (mc/worlds.py call_sequences): hist / rev arrays that are
